@@ -112,7 +112,15 @@ class Unordered:
             if d in ("set", "frozenset"):
                 return True
             if d == "sorted":
-                return False
+                # sorted() is stable: with a key function, elements whose keys tie keep the order of the input, so an
+                # unordered input stays unordered unless the key is the element itself (or an injective rendering)
+                kf = next((k.value for k in e.keywords if k.arg == "key"), None)
+                if kf is None or dotted(kf) in ("str", "repr"):
+                    return False
+                if isinstance(kf, ast.Lambda) and len(kf.args.args) == 1 and isinstance(kf.body, ast.Name) \
+                        and kf.body.id == kf.args.args[0].arg:
+                    return False
+                return any(self.unordered(a, f) for a in e.args[:1])
             if d in PROPAGATING_CALLS:
                 return any(self.unordered(a.value if isinstance(a, ast.Starred) else a, f) for a in e.args)
             if isinstance(e.func, ast.Attribute):
@@ -131,6 +139,10 @@ class Unordered:
                         return True
             return self.is_set_type(e, f)
         if isinstance(e, ast.BinOp) and isinstance(e.op, (ast.BitOr, ast.BitAnd, ast.Sub, ast.BitXor)):
+            # set algebra on dictionary views (d.keys() & other) builds a set
+            if any(isinstance(x, ast.Call) and isinstance(x.func, ast.Attribute) and x.func.attr in ("keys", "items")
+                   and not x.args for x in (e.left, e.right)):
+                return True
             return self.unordered(e.left, f) or self.unordered(e.right, f)
         if isinstance(e, ast.BinOp) and isinstance(e.op, ast.Add):
             return self.unordered(e.left, f) or self.unordered(e.right, f)
@@ -299,6 +311,11 @@ class Unordered:
                 return "message", "interpolated into an exception/warning message"
             return "sensitive", "interpolated into a string"
         if isinstance(par, (ast.List, ast.Tuple, ast.Dict, ast.Set)):
+            if self.is_set_type(n, f) or isinstance(n, (ast.Set, ast.SetComp)) or \
+                    (isinstance(n, ast.Call) and dotted(n.func) in ("set", "frozenset")):
+                return "ok", "element of a display (still a set; readers are tracked by type)"
+            if isinstance(n, (ast.ListComp, ast.DictComp)) or (isinstance(n, ast.Call) and dotted(n.func) in ("sorted", "list", "tuple", "dict")):
+                return "sensitive", "a sequence or mapping built in hash-seed dependent order is placed in a display"
             return "ok", "element of a display"
         if isinstance(par, ast.Subscript):
             if fld == "value":
